@@ -28,7 +28,7 @@ RE_PANIC_AT = re.compile(r"panicked at ([^\s:]+:\d+)")
 
 
 def n_cases(tier):
-    return 1500 if tier == "quick" else 60000
+    return 3000 if tier == "quick" else 100000
 
 
 def gen(rng):
